@@ -366,7 +366,7 @@ package vuego
 //@ func (v *Vue) evaluate(ctx, nodes, depth) (res, err)
 //@   decreases maxEvalDepth + 10 - depth, 2
 //@   ensures C04+C05.balance: BALANCED(ctx)
-//@   assert C16.marked: hasAttrUpTo(node.Attr, "v-once", len(node.Attr)) ==> ctx.seen[getAttrFrom(node.Attr, "v-once-id", 0)] at "helpers.HasAttr(node, \"v-pre\")"
+//@   assert C16.marked: hasAttrUpTo(node.Attr, "v-once", len(node.Attr)) && !hasAttrUpTo(node.Attr, "v-for", len(node.Attr)) ==> ctx.seen[getAttrFrom(node.Attr, "v-once-id", 0)] at "helpers.HasAttr(node, \"v-pre\")"
 //@   loop 0 invariant C03+C04.loop.bounds: 0 <= i && i <= len(nodes)
 //@   loop 0 invariant C04+C05.balance.loop: BALANCED(ctx)
 
@@ -639,9 +639,15 @@ package vuego
 //@   v.templateCache[f].frontMatter == parsedFM(v.templateFS, f, instant(v.templateCache[f].modTime)) &&
 //@   v.templateCache[f].dom == parsedDom(v.templateFS, f, instant(v.templateCache[f].modTime))
 
+// v-once ids are stamped onto a template once, right after it is parsed and before it is shared (C16, C09); the walk
+// is a recursive closure over the tree, so the contract is trusted: it writes attribute lists and nothing else.
+//@ func assignOnceIDs(name, nodes)
+//@   trusted
+//@   modifies everyField("html.Node", "Attr"), everyElem("html.Attribute")
+
 //@ func (v *Vue) loadCachedWithFrontMatter(filename) (fm, dom, err)
 //@   unlocked
-//@   modifies contents(v.templateCache), held(&v.templateMu)
+//@   modifies contents(v.templateCache), held(&v.templateMu), everyField("html.Node", "Attr"), everyElem("html.Attribute")
 //@   ensures C15.fresh: err == nil && v.templateFS != nil && fileExists(v.templateFS, filename) && curInstant(v.templateFS, filename) != 0 ==>
 //@     fm == parsedFM(v.templateFS, filename, curInstant(v.templateFS, filename)) && dom == parsedDom(v.templateFS, filename, curInstant(v.templateFS, filename))
 //@   ensures C15.missing: v.templateFS != nil && !fileExists(v.templateFS, filename) ==> err != nil
